@@ -1334,7 +1334,7 @@ Section Sel.
       destruct ds as [|d0 [|d1 rest]]; [discriminate| |].
       - injection H as <-. exists d0, []. repeat split; auto.
         cbn [dt_kind]. destruct (tc_kind (dc_t d0)); reflexivity.
-      - apply bind_ok in H as (labs & _ & H). injection H as <-. exists d0, (d1 :: rest).
+      - apply bind_ok in H as (labs & _ & H). destruct (existsb _ labs); [discriminate|]. injection H as <-. exists d0, (d1 :: rest).
         repeat split; auto.
     Qed.
 
@@ -1997,10 +1997,10 @@ Section Sel.
         rewrite Hm. cbn [bind].
         destruct ds as [|d0 [|d1 rest]]; [discriminate H| |].
         + injection H as <-. reflexivity.
-        + apply bind_ok in H as (labs & Hlabs & H). injection H as <-.
+        + apply bind_ok in H as (labs & Hlabs & H). destruct (existsb _ labs) eqn:Hnil; [discriminate|]. injection H as <-.
           cbn [map]. rewrite <- (map_cons dcomp_sel d0 (d1 :: rest)) at 1.
           change (dcomp_sel d0 :: dcomp_sel d1 :: map dcomp_sel rest) with (map dcomp_sel (d0 :: d1 :: rest)).
-          rewrite mapM_map. cbn [dcomp_sel dc_labels]. rewrite Hlabs. cbn [bind].
+          rewrite mapM_map. cbn [dcomp_sel dc_labels]. rewrite Hlabs. cbn [bind]. rewrite Hnil.
           unfold dterm_sel. cbn [dt_name dt_kind dt_comps dt_rows dt_labels map dc_rows].
           f_equal. f_equal.
           pose proof (Forall_inv Hl) as L0. pose proof (Forall_inv_tail Hl) as Lr. cbv beta in L0.
